@@ -184,6 +184,10 @@ func (p *regExpParser) scanEscape(inClass bool) {
 		var value int64
 		size := 0
 		for {
+			if size == 3 || size == 2 && value >= 32 {
+				// An octal escape is at most \377: three digits, two if the first is 4-7.
+				break
+			}
 			digit := int64(digitValue(p.chr))
 			if digit >= 8 {
 				// Not a valid digit
